@@ -733,7 +733,126 @@ def eval_named_wordset(case):
     return out
 
 
+# ---------------------------------------------------------------------------
+# part "os_source": the library's DEFAULT random source (random.SystemRandom objects: passlib.utils.rng and its
+# copies, secrets._sysrand) left in place, and the operating system's entropy call underneath it scripted
+# (random._urandom, the one function every SystemRandom method draws from).  Each generator is called twice in a fresh
+# interpreter: the first call while the OS answers stream A, the second while it answers stream B.  The second value
+# must be a function of stream B alone (the same for every stream A): nothing drawn for one value may be kept for the
+# next -- no read-ahead, no cache -- or two values generated after a fork() / by two workers would be related.
+# ---------------------------------------------------------------------------
+OS_TARGETS = ("getrandbytes16", "getrandbytes1", "getrandstr22", "salt:pbkdf2_sha256", "salt:sha256_crypt", "salt:ldap_salted_sha1",
+              "salt:scram", "salt:md5_crypt", "totp_new", "totp_new10", "generate_secret", "genword", "genphrase", "wallet_salt",
+              "libpass_salt", "libpass_pbkdf2", "disable_django")
+
+
+def _os_call(target):
+    import passlib.utils as U
+
+    if target == "getrandbytes16":
+        return U.getrandbytes(U.rng, 16)
+    if target == "getrandbytes1":
+        return U.getrandbytes(U.rng, 1)
+    if target == "getrandstr22":
+        return U.getrandstr(U.rng, "abcdefghijklmnopqrstuvwxyz012345", 22)
+    if target.startswith("salt:"):
+        name = target[5:]
+        H = HS.handler(name)
+        kw = HS.min_cost_kw(name)
+        return (H.using(**kw) if kw else H).hash("pw")
+    if target.startswith("totp_new"):
+        from passlib.totp import TOTP
+
+        return TOTP(new=True, **({"size": 10} if target.endswith("10") else {})).key
+    if target == "generate_secret":
+        from passlib.totp import generate_secret
+
+        return generate_secret()
+    if target == "genword":
+        from passlib.pwd import genword
+
+        return genword(entropy=64)
+    if target == "genphrase":
+        from passlib.pwd import genphrase
+
+        return genphrase(entropy=64)
+    if target == "wallet_salt":
+        from passlib import totp as T
+
+        from mc.checks.c15 import ensure_aes
+
+        ensure_aes()
+        return T.AppWallet({"1": "app-secret"}, encrypt_cost=0).encrypt_key(b"0123456789")["s"]
+    if target == "libpass_salt":
+        import libpass._salt as LS
+
+        return LS.generate_salt(16)
+    if target == "libpass_pbkdf2":
+        from libpass.hashers.pbkdf2 import PBKDF2SHA256Handler
+
+        return PBKDF2SHA256Handler(rounds=1).hash("pw")
+    if target == "disable_django":
+        return HS.handler("django_disabled").hash("pw")
+    raise core.HarnessError(target)
+
+
+def child_os_source(payload):
+    """runs in a fresh interpreter: -> {target: (first value, second value, OS requests during first, during second)}"""
+    import random
+
+    state = {"tag": payload["tag_a"], "ctr": 0, "calls": 0}
+
+    def fake_urandom(n):
+        state["calls"] += 1
+        out = bytes((state["tag"] * 29 + (state["ctr"] + i) * 7 + ((state["ctr"] + i) >> 5) * 13) & 0xFF for i in range(n))
+        state["ctr"] += n
+        return out
+
+    real = random._urandom
+    random._urandom = fake_urandom
+    try:
+        res = {}
+        for target in payload["targets"]:
+            try:
+                state.update(tag=payload["tag_a"], ctr=0, calls=0)
+                first = _os_call(target)
+                c1 = state["calls"]
+                state.update(tag=payload["tag_b"], ctr=0, calls=0)
+                second = _os_call(target)
+                res[target] = (first, second, c1, state["calls"])
+            except Exception as e:  # noqa: BLE001
+                res[target] = ("exc", repr(e), 0, 0)
+        return res
+    finally:
+        random._urandom = real
+
+
+def eval_os_source(case):
+    targets = case["targets"]
+    runs = [core.call_in_child("mc.checks.c06", "child_os_source", {"targets": targets, "tag_a": a, "tag_b": 201}, optimized=False) for a in (1, 2, 3)]
+    out = []
+    for t in targets:
+        vals = [r[t] for r in runs]
+        if any(v[0] == "exc" for v in vals):
+            out.append((f"C06|os_source|{t}:raises", f"{t} under a scripted OS entropy source raised {[v[1] for v in vals if v[0] == 'exc'][0]}"))
+            continue
+        seconds = {repr(v[1]) for v in vals}
+        if len(seconds) != 1:
+            out.append((f"C06|os_source|{t}:second_value_depends_on_earlier_entropy",
+                        f"{t}: the value generated while the OS source answers stream B differs with the stream the PREVIOUS value was drawn from "
+                        f"({sorted(seconds)[:2]}): entropy read for one value is kept for the next (read-ahead / cache) -- forked workers would repeat each other"))
+        if any(v[3] == 0 for v in vals):
+            out.append((f"C06|os_source|{t}:second_value_drew_nothing",
+                        f"{t}: the second value was produced without a single request to the OS entropy source"))
+        if any(v[2] == 0 for v in vals):
+            out.append((f"C06|os_source|{t}:first_value_drew_nothing", f"{t}: the first value was produced without a request to the OS entropy source"))
+    return out
+
+
+
 def replay(case):
+    if case.get("part") == "os_source":
+        return eval_os_source(case)
     if case.get("part") == "pin":
         return eval_pin(case)
     if case.get("part") == "dup_history":
@@ -854,6 +973,15 @@ def work(task):
                 acc.violation(key, desc, case)
         acc.axis("part", "pin")
         return acc
+    if task.get("part") == "os_source":
+        case = {"part": "os_source", "targets": task["targets"]}
+        for t in task["targets"]:
+            acc.ev()
+            acc.cls("os_source", t)
+        for key, desc in eval_os_source(case):
+            acc.violation(key, desc, {"part": "os_source", "targets": [key.split("|")[2].rsplit(":", 1)[0]]})
+        acc.axis("part", "os_source")
+        return acc
     if task.get("part") == "dup_history":
         for case in task["cases"]:
             acc.ev()
@@ -896,6 +1024,9 @@ def run(ctx):
             for k, forms in (("genword", ("str", "bytes")), ("genphrase", ("list", "tuple", "iter"))) for f in forms for e in (24, 40)]
     dups += [{"part": "named_wordset", "how": h, "entropy": e} for h in ("assigned_list", "assigned_tuple", "assigned_text", "path") for e in (24, 40)]
     tasks.append({"part": "dup_history", "cases": dups})
+    ost = [t for t in OS_TARGETS if not t.startswith("salt:") or HS.usable(t[5:])]
+    for i in range(0, len(ost), 3):
+        tasks.append({"part": "os_source", "targets": ost[i : i + 3]})
     ctx.log(f"{len(ts)} generator targets, {len(pins)} pinning cases")
     acc = core.pmap(work, tasks)
     ctx.merge(acc)
